@@ -5,7 +5,7 @@ from harness.props import c09
 
 RULE = ("single-fault corruptions of generated valid files (per sig field: empty, out-of-range low/high, non-numeric, unknown keyword, "
         "stray separators; per line: delete, duplicate, move, unknown parameter, bad section/direction, bad label, out-of-place "
-        "sig/label/sys), all sequences of <= 3 line kinds from a 19-kind alphabet (thorough: <= 4), unreadable paths; observable = "
+        "sig/label/sys), loaded alternately into a fresh and into ONE long-lived Database through one path, all sequences of <= 3 line kinds from a 19-kind alphabet (thorough: <= 4), unreadable paths; observable = "
         "exception class and .line_number, or the loaded database; non-trivial = the model rejects the file")
 ASSUMPTIONS = ["'comment line' = ';' in column 0 (the code's own rule); int() leniency ('+5', ' 5', '6_4') is not an error"]
 GEN_TIE = "sig"   # TCPSignature.parse / MTUSignature.parse and their field parsers are also TRANSLATED (translate/sig2coq.py) on every run and proved equal to the model (Gen/GenSigP.v)
@@ -82,6 +82,8 @@ def impl_init():
     from pyp0f.database import Database
     from harness import implutil as U
 
+    kept = [Database(), 0]
+
     def impl(c):
         if "path" in c and c["path"].startswith("invalid-utf8"):
             # not text at all: bytes that are not UTF-8 (in the first line / only after valid records)
@@ -99,7 +101,10 @@ def impl_init():
             p = "/nonexistent/dir/p0f.fp" if c["path"] == "missing" else os.path.dirname(os.path.abspath(__file__))
             Database().load(p)
             return {"ok": "loaded?!"}
-        db = U.load_db(c09.text_of(c))
+        # two of three loads go into ONE long-lived Database object (through the same path, usually within the same second):
+        # what load() does with a file may not depend on what that object, or that path, was loaded with before
+        kept[1] += 1
+        db = U.load_db(c09.text_of(c), None if kept[1] % 3 == 0 else kept[0])
         return {"ok": U.dump_db(db)}
     return impl
 
